@@ -32,7 +32,17 @@ fn gen_program(rng: &mut Rng, luau: bool) -> String {
             6 | 7 => format!("local {} = game:GetService(\"{}\")", name, rng.pick(SERVICES)),
             8 => format!("local {}, other{} = require(\"x\"), require(\"y\")", name, i),
             9 => format!("{} = require(\"assigned\")", name),
-            10 => format!("local v{} = {}", i, i),
+            10 => match rng.below(8) {
+                // near misses and odd members of the classification
+                0 => format!("local {} = game.GetService(\"Players\")", name),
+                1 => format!("local {} = game:FindFirstChild(\"x\")", name),
+                2 => format!("local {} = (require)(\"m\")", name),
+                3 => format!("local {} = require(\"m\").field", name),
+                4 => format!("local {} = requirex(\"m\")", name),
+                5 => format!("local {} = game", name),
+                6 => format!("local {} = require", name),
+                _ => format!("local v{} = {}", i, i),
+            },
             _ => format!("print(\"{}\")", i),
         };
         out.push_str(&line);
@@ -46,6 +56,7 @@ fn gen_program(rng: &mut Rng, luau: bool) -> String {
 
 fn dump(tag: &str, stmts: &[TopStmt], out: &mut dyn std::io::Write) {
     for s in stmts {
+        if tag == "IN" { writeln!(out, "RQ {} {}", match &s.req { Some((true, _, _)) => "G", Some((false, _, _)) => "R", None => "O" }, s.desc).unwrap(); }
         let req = match &s.req { Some((k, n, l)) => format!("{} {} {}", if *k { "G" } else { "R" }, hex(n.as_bytes()), l), None => "O - 0".into() };
         writeln!(out, "{} {} {} {} {} {} {} {}", tag, req, s.start_line, s.end_line, if s.skip { 0 } else { 1 }, hex(s.key.as_bytes()), hexlist(&s.lead), hexlist(&s.trail)).unwrap();
     }
